@@ -50,7 +50,7 @@ def check(run, cases=None):
             # the error itself is C02's business; without a matching error convention the Jacobian is compared raw
             flipped = False
         okj, devj, msgj = EC.compare_jacobians(c, obs, jacs, flipped, TOL)
-        if not okj and c['fam'] == 'odo' and c['k'] == 'SE3' and obs['w'][0] < 0 and all(obs['e'][j][0] == 0 for j in (3, 4, 5)):
+        if not okj and c['fam'] == 'odo' and c['k'] == 'SE3' and ((obs['w'][0] < 0 and all(obs['e'][j][0] == 0 for j in (3, 4, 5))) or obs['w'][0] == 0):
             # zero rotational error with w < 0 (error quaternion (0,0,0,-1)): the error cannot tell the two sign conventions apart
             okj, devj, msgj = EC.compare_jacobians(c, obs, jacs, not flipped, TOL)
         if devj != float('inf'):
